@@ -1351,6 +1351,114 @@ theorem c05_box_method_for_current_source {ε : Type} (K : Nat) (cra cdec : Nat 
     boxMethod Gen.C05.batchSize K cra cdec = maskMethod K (fun k e => cra k e && cdec k e) :=
   c05_box_method_eq _ K (by decide) cra cdec
 
+/-! ### argsort of the index field -/
+
+namespace C05
+variable {F : Type} [LinearOrder F]
+
+/-- `σ` is an admissible argsort of `keys` -/
+def IsArgsort (keys : List F) (σ : List Nat) : Prop :=
+  σ.Perm (List.range keys.length) ∧ ∃ ks, take keys σ = some ks ∧ ks.Pairwise (· ≤ ·)
+
+theorem sortedB_iff (l : List F) : sortedB l = true ↔ l.Pairwise (· ≤ ·) := by
+  induction l with
+  | nil => simp [sortedB]
+  | cons a rest ih =>
+    cases rest with
+    | nil => simp [sortedB]
+    | cons b rest' =>
+      simp only [sortedB, Bool.and_eq_true, decide_eq_true_eq, ih, List.pairwise_cons]
+      constructor
+      · rintro ⟨hab, hb, hrest⟩
+        refine ⟨?_, hb, hrest⟩
+        intro c hc
+        rcases List.mem_cons.mp hc with rfl | hc
+        · exact hab
+        · exact le_trans hab (hb c hc)
+      · rintro ⟨ha, hb, hrest⟩
+        exact ⟨ha b (by simp), hb, hrest⟩
+
+theorem take_map {α β : Type} (f : α → β) {xs : List α} {is : List Nat} {ys : List α}
+    (h : take xs is = some ys) : take (xs.map f) is = some (ys.map f) := by
+  rw [take_eq_some_iff] at h ⊢
+  induction h with
+  | nil => exact .nil
+  | cons h1 _ ih => exact .cons (by simp [h1]) ih
+
+theorem take_pairs {α : Type} (keys : List α) (L : List (α × Nat)) (h : ∀ p ∈ L, keys[p.2]? = some p.1) :
+    take keys (L.map Prod.snd) = some (L.map Prod.fst) := by
+  induction L with
+  | nil => rfl
+  | cons p L ih =>
+    simp only [List.map_cons, take, h p (by simp), ih (fun q hq => h q (by simp [hq]))]
+
+end C05
+
+/-- the executable check accepts only admissible argsorts -/
+theorem c05_isArgsort_sound {F : Type} [LinearOrder F] (keys : List F) (σ : List Nat)
+    (h : isArgsort keys σ = true) : C05.IsArgsort keys σ := by
+  unfold isArgsort at h
+  rw [Bool.and_eq_true, decide_eq_true_eq] at h
+  obtain ⟨hp, hs⟩ := h
+  refine ⟨?_, ?_⟩
+  · have := List.mergeSort_perm σ (fun a b => decide (a ≤ b))
+    rw [hp] at this
+    exact this.symm
+  · cases ht : take keys σ with
+    | none => simp [ht] at hs
+    | some ks =>
+      simp only [ht] at hs
+      exact ⟨ks, rfl, (C05.sortedB_iff ks).mp hs⟩
+
+/-- **a stable argsort is an admissible argsort**: the executable `argsortStable` (what
+`np.argsort(kind='stable')` computes) returns a permutation of the positions that lists the keys in
+non-decreasing order — the hypothesis "argsort returns a permutation" of the `c05_tdm_*` theorems is
+dischargeable -/
+theorem c05_argsort_stable_spec {F : Type} [LinearOrder F] (keys : List F) :
+    C05.IsArgsort keys (argsortStable keys) := by
+  unfold argsortStable
+  set le : F × Nat → F × Nat → Bool := fun a b => decide (a.1 ≤ b.1) with hle
+  have hperm := List.mergeSort_perm keys.zipIdx le
+  have hsorted := List.pairwise_mergeSort (le := le)
+    (by intro a b c; simp only [hle, decide_eq_true_eq]; exact le_trans)
+    (by intro a b; simp only [hle, Bool.or_eq_true, decide_eq_true_eq]; exact le_total _ _) keys.zipIdx
+  refine ⟨?_, ?_⟩
+  · have := hperm.map Prod.snd
+    rw [List.zipIdx_map_snd] at this
+    simpa [List.range_eq_range'] using this
+  · refine ⟨(keys.zipIdx.mergeSort le).map Prod.fst, ?_, ?_⟩
+    · apply C05.take_pairs
+      intro p hp
+      exact List.mem_zipIdx_iff_getElem?.mp ((hperm.mem_iff).mp hp)
+    · rw [List.pairwise_map]
+      exact hsorted.imp (by intro a b h; simpa [hle] using h)
+
+/-- **the stored events are sorted by the index field**: if the argsort used by `initialize_trial`
+is admissible for the keys of the selected events (`np.argsort` of any kind is; `argsortStable`
+provably is), the keys of the stored events are non-decreasing -/
+theorem c05_tdm_sorted_by_key {ε F : Type} [LinearOrder F] (key : ε → F) (K : Nat) (evs : List ε)
+    (m : Method ε) (hm : C05.Sound K m) (f : List ε → List Nat)
+    (hf : ∀ evs', C05.IsArgsort (evs'.map key) (f evs')) :
+    ∃ t, initTrial K evs (some m) (some f) = some t ∧ (t.events.map key).Pairwise (· ≤ ·) := by
+  obtain ⟨r, t, τ, _, _, ht, _, htake, _, _, _, _, _, hτ⟩ :=
+    c05_tdm_select_sort K evs m hm (some f) (by
+      intro g evs' hg; cases hg
+      have := (hf evs').1
+      simpa using this)
+  refine ⟨t, ht, ?_⟩
+  obtain ⟨_, ks, hks, hsorted⟩ := hf r.events
+  have h1 := C05.take_map key htake
+  rw [hτ f rfl] at h1
+  rw [hks] at h1
+  cases h1
+  exact hsorted
+
+theorem c05_tdm_sorted_by_key_stable {ε F : Type} [LinearOrder F] (key : ε → F) (K : Nat) (evs : List ε)
+    (m : Method ε) (hm : C05.Sound K m) :
+    ∃ t, initTrial K evs (some m) (some (fun evs' => argsortStable (evs'.map key))) = some t ∧
+      (t.events.map key).Pairwise (· ≤ ·) :=
+  c05_tdm_sorted_by_key key K evs m hm _ (fun evs' => c05_argsort_stable_spec (evs'.map key))
+
 /-! ### criterion layer over ℝ -/
 
 open EvSelCrit in
@@ -1427,6 +1535,94 @@ theorem c05_dec_band_method (srcDec : Nat → ℝ) (δ : ℝ) (K : Nat) (evs : L
   rw [hp k j]
   simp only [C05Crit.inDecBand_iff]
 
+/-! ### the methods as executed, over ℝ (index layer ∘ criterion layer) -/
+
+section realMethods
+open EvSelCrit
+
+namespace C05Crit
+/-- the haversine angle lies in `[0, π]` -/
+theorem angSep_range (ra1 dec1 ra2 dec2 : ℝ) :
+    0 ≤ angSep ra1 dec1 ra2 dec2 ∧ angSep ra1 dec1 ra2 dec2 ≤ Real.pi := by
+  unfold angSep
+  simp only [TranscReal.asin_def, TranscReal.sqrt_def]
+  set x0 : ℝ := _ with hx0
+  constructor
+  · have : 0 ≤ Real.arcsin (Real.sqrt (if 1 < (if x0 < 0 then 0 else x0) then 1 else (if x0 < 0 then 0 else x0))) :=
+      Real.arcsin_nonneg.mpr (Real.sqrt_nonneg _)
+    linarith
+  · have := Real.arcsin_le_pi_div_two (Real.sqrt (if 1 < (if x0 < 0 then 0 else x0) then 1 else (if x0 < 0 then 0 else x0)))
+    linarith
+
+/-- an event at the source position has angular distance zero -/
+theorem angSep_self (ra dec : ℝ) : angSep ra dec ra dec = 0 := by
+  unfold angSep
+  simp [absF_real]
+  norm_num
+end C05Crit
+
+/-- RA band as a mask method over ℝ: `(k, j)` is listed iff returned event `j` is closer to source `k`
+than the half width on the RA circle -/
+theorem c05_ra_band_method (srcRa srcDec : Nat → ℝ) (δ : ℝ) (K : Nat) (evs : List ℝ)
+    (hr : ∀ k e, e ∈ evs → |e - srcRa k| ≤ 2 * Real.pi) :
+    ∃ r, maskMethod K (fun k e => inRABand (srcRa k) (srcDec k) δ e) evs none = some r ∧
+      (∀ k j, (k, j) ∈ r.pairs ↔ k < K ∧ ∃ e, r.events[j]? = some e ∧
+        C05Crit.circDist (e - srcRa k) < dRAhalf (srcDec k) δ) := by
+  obtain ⟨r, hr', hev, hp, _⟩ := c05_mask_method_exact K (fun k e => inRABand (srcRa k) (srcDec k) δ e) evs
+  refine ⟨r, hr', ?_⟩
+  intro k j
+  rw [hp k j]
+  constructor
+  · rintro ⟨hk, e, he, hc⟩
+    have hmem : e ∈ evs := by
+      have : e ∈ r.events := List.mem_of_getElem? he
+      rw [hev] at this
+      exact (List.mem_filter.mp this).1
+    exact ⟨hk, e, he, (C05Crit.inRABand_iff _ _ _ _ (hr k e hmem)).mp hc⟩
+  · rintro ⟨hk, e, he, hc⟩
+    have hmem : e ∈ evs := by
+      have : e ∈ r.events := List.mem_of_getElem? he
+      rw [hev] at this
+      exact (List.mem_filter.mp this).1
+    exact ⟨hk, e, he, (C05Crit.inRABand_iff _ _ _ _ (hr k e hmem)).mpr hc⟩
+
+/-- the spatial box as executed (batched, any batch size ≥ 1) over ℝ: events are (ra, dec) pairs;
+`(k, j)` is listed iff returned event `j` is inside the RA window and the clipped declination band
+of source `k` -/
+theorem c05_box_method_real (B : Nat) (hB : 1 ≤ B) (srcRa srcDec : Nat → ℝ) (δ : ℝ) (K : Nat)
+    (evs : List (ℝ × ℝ)) :
+    ∃ r, boxMethod B K (fun k e => decide (raDistBox (srcRa k) e.1 < dRAhalf (srcDec k) δ))
+        (fun k e => inDecBand (srcDec k) δ e.2) evs none = some r ∧
+      (∀ k j, (k, j) ∈ r.pairs ↔ k < K ∧ ∃ e, r.events[j]? = some e ∧
+        C05Crit.circDist (e.1 - srcRa k) < dRAhalf (srcDec k) δ ∧
+        |e.2 - srcDec k| < δ ∧ -(Real.pi / 2) < e.2 ∧ e.2 < Real.pi / 2) := by
+  rw [c05_box_method_eq B K hB]
+  obtain ⟨r, hr, _, hp, _⟩ := c05_mask_method_exact K
+    (fun k (e : ℝ × ℝ) => decide (raDistBox (srcRa k) e.1 < dRAhalf (srcDec k) δ) && inDecBand (srcDec k) δ e.2) evs
+  refine ⟨r, hr, ?_⟩
+  intro k j
+  rw [hp k j]
+  simp only [Bool.and_eq_true, decide_eq_true_eq, C05Crit.inDecBand_iff, C05Crit.raDistBox_eq]
+
+/-- ang-err-of-psi as executed (pair-table method) over ℝ with `func(psi) = a + b·psi`: `(k, j)` is
+listed iff `(k, org[j])` is an incoming pair and `ang_err ≥ func(psi) ∨ psi < psi_floor`, where
+`psi ∈ [0, π]` is the haversine angle between source `k` and the event -/
+theorem c05_angerr_method (a b fl : ℝ) (srcRa srcDec : Nat → ℝ) (K : Nat) (evs : List (ℝ × ℝ × ℝ))
+    (inc : Option Pairs) (hb : ∀ p ∈ incTable K evs.length inc, p.1 < K ∧ p.2 < evs.length) :
+    ∃ r, pairMethod K (fun k e => angErrCrit a b fl (srcRa k) (srcDec k) e.1 e.2.1 e.2.2) evs inc = some r ∧
+      (∀ k j, (k, j) ∈ r.pairs ↔ ∃ i e, r.org[j]? = some i ∧ (k, i) ∈ incTable K evs.length inc ∧
+        evs[i]? = some e ∧
+        (a + b * angSep (srcRa k) (srcDec k) e.1 e.2.1 ≤ e.2.2 ∨ angSep (srcRa k) (srcDec k) e.1 e.2.1 < fl)) ∧
+      ∀ k (e : ℝ × ℝ × ℝ), 0 ≤ angSep (srcRa k) (srcDec k) e.1 e.2.1 ∧ angSep (srcRa k) (srcDec k) e.1 e.2.1 ≤ Real.pi := by
+  obtain ⟨r, hr, _, _, hp⟩ := c05_pair_method_exact K
+    (fun k (e : ℝ × ℝ × ℝ) => angErrCrit a b fl (srcRa k) (srcDec k) e.1 e.2.1 e.2.2) evs inc hb
+  refine ⟨r, hr, ?_, fun k e => C05Crit.angSep_range _ _ _ _⟩
+  intro k j
+  rw [hp k j]
+  simp only [angErrCrit, Bool.or_eq_true, decide_eq_true_eq]
+
+end realMethods
+
 /-! ### non-vacuity -/
 
 -- a well-formed 2-source, 4-event mask with an unselected event, an event selected by both sources
@@ -1476,3 +1672,9 @@ example : (initTrial 2 [30, 10, 20] (some (maskMethod 2 (fun k (e : Nat) => deci
 -- a trial on 3 pre-selected events of a data set stated to hold 10: table 2·3, 7 pure background events
 example : (initTrialObj true (TdmObj.fresh : TdmObj Nat) 2 [7, 8, 9] none none (some 10)).map
     (fun s => (s.nValues, s.nPureBkg, s.nSources, s.nEvents)) = some (some 6, 7, 2, 10) := by decide
+
+-- an admissible argsort exists for every key list (hypothesis of c05_tdm_sorted_by_key)
+example : C05.IsArgsort ([3, 1, 2, 1] : List Nat) (argsortStable [3, 1, 2, 1]) := c05_argsort_stable_spec _
+-- hypothesis of c05_ra_band_method: right ascensions in [0, 2π]
+example : |(6.2 : ℝ) - 0.1| ≤ 2 * Real.pi := by
+  rw [abs_of_pos (by norm_num)]; have := Real.pi_gt_d2; norm_num at this ⊢; linarith
